@@ -179,7 +179,8 @@ def run(sc):
                 # another LogixDriver object in the same process opens and closes a connection to a Micro800 at
                 # another address; nothing of that may reach the driver under test
                 envM = session.build({"seed": sc["seed"], "world": {
-                    "layout": "micro800", "ip": "10.0.0.88", "identity": {"product_name": "2080-LC50-48QWB", "rev_major": 12},
+                    "layout": "micro800", "ip": "10.0.0.88",
+                    "identity": op.get("identity") or {"product_name": "2080-LC50-48QWB", "rev_major": 12},
                     "project": {"name": "M8", "types": {}, "programs": {}, "wallclock_us": 10**15, "tags": [
                         {"name": "m", "scope": None, "type": "DINT", "dims": [], "kind": "user", "access": 0, "alias": False,
                          "software_control": 1 << 26, "instance_id": 1, "init": "01000000"}]},
@@ -664,6 +665,14 @@ def gen(seed, tier, prop="C14"):
                        {"id": "oy", "kind": "list_identity", "cls": "CIPDriver", "path": path if dcls == "CIPDriver" else
                         ("10.0.0.1" if layout not in ("clx", "multihop") else path), "host": "10.0.0.1"})
         ops.append({"id": "oz", "kind": "close"})
+        rm = Sim(seed).stream("gen.micro800")     # own stream: the other draws of this seed stay what they were
+        if rm.random() < 0.2:
+            # a LogixDriver that opens a Micro800 learns its identity on the way (plain UCMM: the device has neither a
+            # backplane nor Unconnected Send)
+            idn = rand_identity(rm)
+            idn["product_name"] = "2080-" + rm.choice(("LC50-48QWB", "LC30-24QBB", "LC20-20QBB", "L50E-24QWB"))
+            idn["rev_major"] = rm.choice((6, 10, 12, 20, 21))
+            ops.insert(rm.randrange(0, len(ops)), {"id": "mv", "kind": "micro800_visit", "identity": idn})
         sc["ops"] = ops
         return sc
     # C14 / C09 / C11
